@@ -15,20 +15,25 @@ pub open spec fn fv(b: int, s: int, e: int, n: int, d: int) -> bool {
     if e >= 0 { n == (s * ipow(b, e as nat)) * d } else { n * ipow(b, (-e) as nat) == s * d }
 }
 
-/// DEFINITION (property C18): "the fraction yn/yd (yd > 0) rounds to the float f = sig * b^exp of precision p under mode md".
-/// f = m * ulp with the p-digit integer m; the fine step below a power of the base is ulp/g (MODEL of ebounds_lemmas.rs);
-/// y = f + (X/D) * (ulp/g) with X/D = (y - f) / b^eu, and `rounds_on_grid` is the definition of the mode (round_def) on the
-/// grid of y's own binade.
-pub open spec fn in_round_set(md: Mode, b: int, sig: int, exp: int, p: int, yn: int, yd: int) -> bool {
-    let d = ndigits(b, sig) as int;
-    let g = eb_g(b, sig);
-    let eu = exp + d - p - (if eb_pow(sig) { 1int } else { 0int });       // exponent of the fine step ulp/g
-    let m = sig * ipow(b, (p - d) as nat);
+/// "the fraction yn/yd (yd > 0) rounds to f" on the grid of f: f = m * ulp = (m * g) * b^eu, where b^eu = ulp/g is the fine
+/// step below f (g = b when f is a power of the base: the numbers below it are spaced ulp/b; g = 1 otherwise; MODEL of
+/// ebounds_lemmas.rs).  y = f + (X/D) * b^eu with X/D = (y - f) / b^eu, and `rounds_on_grid` is the DEFINITION of the mode
+/// (round_def) on the grid of y's own binade.
+pub open spec fn in_round_grid(md: Mode, b: int, m: int, g: int, eu: int, yn: int, yd: int) -> bool {
     if eu >= 0 {
         rounds_on_grid(md, m, g, yn - ((m * g) * ipow(b, eu as nat)) * yd, yd * ipow(b, eu as nat))
     } else {
         rounds_on_grid(md, m, g, yn * ipow(b, (-eu) as nat) - (m * g) * yd, yd)
     }
+}
+/// DEFINITION (property C18): "the fraction yn/yd (yd > 0) rounds to the float f = sig * b^exp of precision p under mode md":
+/// f = m * ulp with the p-digit integer m = sig * b^(p - digits), ulp = b^(exp + digits - p).
+pub open spec fn in_round_set(md: Mode, b: int, sig: int, exp: int, p: int, yn: int, yd: int) -> bool {
+    let d = ndigits(b, sig) as int;
+    let g = eb_g(b, sig);
+    let eu = exp + d - p - (if eb_pow(sig) { 1int } else { 0int });       // exponent of the fine step ulp/g
+    let m = sig * ipow(b, (p - d) as nat);
+    in_round_grid(md, b, m, g, eu, yn, yd)
 }
 
 /// p/s lies in the interval from ln/ld to un/ud whose end points belong to it iff il / ir
